@@ -210,6 +210,21 @@ func x04ReplayKsOn[T obifp.FPUint[T]](env *Env, kn *x04Known, c *x04KsCase, bits
 				return
 			}
 		}
+		keys := m.Sequences()
+		okkeys := len(keys) == m.Len()
+		for _, s := range keys {
+			found := false
+			for i, r := range refs {
+				if r == s && after[i] != 0 {
+					found = true
+				}
+			}
+			okkeys = okkeys && found
+		}
+		if !okkeys {
+			env.fail("X04.kmer.sequences", c.Cls, fmt.Sprintf("%s answers %v; after FilterMinCount(%d) Sequences() returns %d objects that are not exactly the %d references of the answer", c.call(bits, asc), obs.Ans, mc, len(keys), m.Len()), c)
+			return
+		}
 		if mx := m.Max(); mx == nil {
 			if m.Len() != 0 {
 				env.fail("X04.kmer.max", c.Cls, fmt.Sprintf("%s answers %v; Max() after FilterMinCount(%d) is nil", c.call(bits, asc), obs.Ans, mc), c)
@@ -417,11 +432,27 @@ func x04KsGen(rng *rand.Rand, i, maxlen int, files bool) x04KsScenario {
 	if fam == "family" && rng.Intn(2) == 0 { // the same sequence twice in the references
 		sc.Refs = append(sc.Refs, sc.Refs[0])
 	}
-	nq := 6 + rng.Intn(6)
+	nq := 8 + rng.Intn(6)
 	for j := 0; j < nq; j++ {
 		r := rng.Intn(len(sc.Refs))
 		q := x04KsQuery{Id: fmt.Sprintf("q%d", j+1)}
-		switch j % 9 {
+		switch j % 12 {
+		case 9: // exact prefix / suffix of a reference
+			n := len(sc.Refs[r]) - rng.Intn(len(sc.Refs[r])/3+1)
+			if rng.Intn(2) == 0 {
+				q.Sc, q.S = "prefix", sc.Refs[r][:n]
+			} else {
+				q.Sc, q.S = "suffix", sc.Refs[r][len(sc.Refs[r])-n:]
+			}
+		case 10: // a reference with a flank on one side
+			if rng.Intn(2) == 0 {
+				q.Sc, q.S = "reference_plus_flank", x04RandSeq(rng, 5+rng.Intn(30), "acgt")+sc.Refs[r]
+			} else {
+				q.Sc, q.S = "reference_plus_flank", sc.Refs[r]+x04RandSeq(rng, 5+rng.Intn(30), "acgt")
+			}
+		case 11: // reverse complement of a prefix / suffix
+			n := len(sc.Refs[r]) - rng.Intn(len(sc.Refs[r])/3+1)
+			q.Sc, q.S = "prefix_reverse_complement", x04RevComp(sc.Refs[r][:n])
 		case 0:
 			q.Sc, q.S, q.Self = "reference_itself", sc.Refs[r], r+1
 		case 1:
